@@ -154,6 +154,43 @@ def r05_1(ctx):
     branch_emits_both_arms(ctx)
 
 
+def seqn_leaves(text: str):
+    """in-order members of a (possibly nested) SEQN(n, a, b, SEQN(m, ...)) text built over <eK.effect_var()> holes; second result: the
+    SEQN nodes whose count differs from their number of operands"""
+    import re as _re
+    toks = _re.findall(r"SEQN\(|\)|,|<e\d+\.effect_var\(\)>|\d+|[^\s,()<>]+", text)
+    pos = 0
+    bad = []
+
+    def parse():
+        nonlocal pos
+        t = toks[pos]
+        if t == "SEQN(":
+            pos += 1
+            cnt = toks[pos]
+            pos += 1
+            ops = []
+            while pos < len(toks) and toks[pos] == ",":
+                pos += 1
+                ops.append(parse())
+            if pos < len(toks) and toks[pos] == ")":
+                pos += 1
+            if not cnt.isdigit() or int(cnt) != len(ops):
+                bad.append(f"SEQN({cnt}, ...) with {len(ops)} operands")
+            return [x for o in ops for x in o]
+        pos += 1
+        m = _re.fullmatch(r"<(e\d+)\.effect_var\(\)>", t)
+        return [m.group(1)] if m else [t]
+
+    out = []
+    try:
+        while pos < len(toks):
+            out += parse()
+    except IndexError:
+        bad.append("unbalanced text")
+    return out, bad
+
+
 @rule("R05.2", "C05", "Sequence keeps its effects in argument order (dropping only Empty) and emits SEQN(n, e1..en) in that order", min_instances=6)
 def r05_2(ctx):
     idx = get_index(ctx.env)
@@ -208,14 +245,22 @@ def r05_2(ctx):
     ctx.check("Sequence.effect_ops contains every operand and effect (dependency tracking)", isinstance(ops, list) and sorted(lab(x) for x in ops) == ["e1", "p"], "['e1','p']", str([lab(x) for x in ops] if isinstance(ops, list) else ops), fn_where(idx, fi))
     # il_write
     fw = idx.func("Sequence.il_write")
-    for n in (1, 2, 3, 4):
+    for n in (1, 2, 3, 4, 7, 8, 9, 10, 15, 16, 17, 18, 33):
         def once(interp, n=n):
             effs = [AObj("Effect", {}, label=f"e{k}", opaque=True) for k in range(1, n + 1)]
             return interp.call_function(fw, [], self_obj=AObj("Sequence", {"effects": effs}, label="self"))
         outs = Interp(idx).explore(once)
         obs = " | ".join(sorted({normalise(outcome_text(o)) for o in outs}))
         exp = "<e1.effect_var()>" if n == 1 else f"SEQN({n}, " + ", ".join(f"<e{k}.effect_var()>" for k in range(1, n + 1)) + ")"
-        ctx.check(f"Sequence.il_write[{n} effects]", obs == exp, exp, obs, fn_where(idx, fw))
+        if n <= 4:
+            ctx.check(f"Sequence.il_write[{n} effects]", obs == exp, exp, obs, fn_where(idx, fw))
+        else:
+            # long sequences: every member exactly once, in order, every SEQN count equal to the number of its operands (nesting allowed)
+            leaves, bad = seqn_leaves(obs)
+            want = [f"e{k}" for k in range(1, n + 1)]
+            miss = [x for x in want if x not in leaves]
+            ctx.check(f"Sequence.il_write[{n} effects]: every member is sequenced once, in order", leaves == want and not bad, f"e1 .. e{n}, SEQN counts = operand counts",
+                      (f"missing {miss[:4]}" if miss else f"order {leaves[:6]}..." if leaves != want else "") + (f" count mismatch {bad[:2]}" if bad else "") or "ok", fn_where(idx, fw))
 
 
 @rule("R05.3", "C05", "top level: statements reach the final instruction sequence in source order; pass-through callbacks preserve order", min_instances=5)
@@ -417,9 +462,10 @@ def r05_9(ctx):
 
 @rule("R05.10", "C05", "an effect's operand list reaches below every kind of operand node (what decides whether a pending side effect is sequenced in front of its consumer or left over for the instruction start)", min_instances=10)
 def r05_10(ctx):
-    from .c06 import op_list_completeness
+    from .c06 import op_list_completeness, temporary_name_is_its_key
 
     op_list_completeness(ctx)
+    temporary_name_is_its_key(ctx)  # ... and whether the pending entry is found at all: it is looked up by the temporary's registered name
 
 
 def branch_emits_both_arms(ctx):
